@@ -60,6 +60,9 @@ pub struct IoMenu {
     pub write_pending: bool,
     pub write_err: bool,
     pub write_zero: bool,
+    /// a failing write / flush / read reports its error but the transport object stays usable afterwards (what a
+    /// transient condition looks like): whatever the client does next shows on the wire
+    pub err_keeps_open: bool,
     pub flush_pending: bool,
     pub flush_err: bool,
     pub read_partial: bool,
@@ -98,6 +101,7 @@ impl IoMenu {
             write_pending: true,
             write_err: true,
             write_zero: false,
+            err_keeps_open: false,
             flush_pending: true,
             flush_err: true,
             read_partial: true,
@@ -291,6 +295,9 @@ pub struct Cfg {
     pub must_reach: Vec<&'static str>,
     /// `Age` may also move the identifier counter to `live identifier + d` for these distances
     /// (identifiers that alias a live one modulo a power of two)
+    /// Every disconnect() / disconnect_with() of the program is dropped at its first write, before the transport
+    /// took a byte of it (the connection stays usable).
+    pub disconnect_dropped_unwritten: bool,
     pub age_aliases: Vec<u16>,
     /// Further absolute identifiers the counter may come round to (also when nothing is in flight), e.g. 1 = the
     /// counter has wrapped exactly.
@@ -361,6 +368,7 @@ impl Cfg {
             big_connect: false,
             preludes: Vec::new(),
             must_reach: Vec::new(),
+            disconnect_dropped_unwritten: false,
             age_aliases: Vec::new(),
             age_targets: Vec::new(),
             drain_until_dead: false,
